@@ -107,5 +107,6 @@ def budget_stage(res, tier, seed=1):
             "budget_sweep_included_at_boundary": sum(1 for x in rows if x["included"]),
             "large_state_queries": len(sweep), "large_state_cut_members":
                 sum(1 for r in sweep for m in r["members"] if len(m["carried"]) < len([v for v in m["sender"] if v > m["from"]])),
+            "large_state_setmax_only_members": sum(1 for r in sweep for m in r["members"] if m["setmax"] != -1),
             "large_state_longest_delta": max([r["len"] for r in sweep] + [0]), "large_state_bad": sweep_bad,
             "budget_sample": rows[:2]}
